@@ -75,7 +75,7 @@ func famHist(out string) {
 		rng := hutil.NewRng(1000 + uint64(i))
 		w := worldFromShared(rng, 5)
 		p := HistParams{Steps: steps - 8 + rng.Intn(16), Wallets: 5, PBadTx: 10, PCorrupt: 10, PFork: 20, PReorg: 12, DumpEvery: 7, Crashes: 2}
-		switch i % 9 {
+		switch i % 10 {
 		case 1:
 			p.PFork = 45 // fork heavy
 		case 2:
@@ -92,6 +92,8 @@ func famHist(out string) {
 			p.Steps, p.PBadTx, p.PCorrupt, p.Scenario = 8, 0, 0, "shortheavy"
 		case 8:
 			p.Steps, p.PBadTx, p.PCorrupt, p.Scenario = 14, 0, 0, "corruptsweep"
+		case 9:
+			p.Steps, p.PBadTx, p.PCorrupt, p.PFork, p.PReorg, p.Scenario = 6, 0, 0, 0, 0, "stalekey"
 		}
 		// one history in twelve (quick) is replayed on the real LMDB back-end
 		p.LMDB = i%12 == 5 || (hutil.Tier() == "thorough" && i%20 == 7)
